@@ -3,7 +3,13 @@
 
     R <variant> <w>,<q>,<b>,<z>                → settings chosen by GetInstance for that option struct
     C <q|-> <w|-> <b|-> <z|->                  → settings after ApplyConfig (`-` = key absent)
-    H <variant> <w>,<q>,<b>,<z> <op>;<op>;…    → <pack>;<pack>;… | <final state>
+    H <variant> <w>,<q>,<b>,<z> <op>;<op>;… [<fault>]   → <pack>;<pack>;… | <final state>
+    L <variant> <w>,<q>,<b>,<z> <act>;<act>;… [<fault>] → the same for the loop machine (Golib.ZipSender.Loop),
+                                                           followed by  pc=<top|poll<n>|exited> cancelled=<0|1>
+
+  fault    which hand-overs the client answers with an error: first | all | every:<k> | random:<pct>:<salt>
+  act      a:<rec>  d:<rec>|…  c:…  as below;  k  cancel;  t<n>  the loop's select (GetTimeout will fit 1+n polls);
+           p  one poll of GetTimeout
 
   variant  fixed | found
   op       a:<rec>  Add            s  one loop iteration      x  stop
@@ -15,6 +21,7 @@
   state    buf=<ids> count=<n> len=<n> first=<t> queue=<ids> set=<w>,<q>,<b>,<z> stopped=<0|1>
 -/
 import Golib.ZipSender.Model
+import Golib.ZipSender.Loop
 import Driver.Common
 
 open ZipSender Drv
@@ -30,6 +37,7 @@ def dzip : Zip := ⟨id⟩
 def parseVariant : String → Option Variant
   | "fixed" => some Variant.fixed
   | "found" => some Variant.asFound
+  | "noreset" => some Variant.returnOnError
   | _ => none
 
 def parseSettings (s : String) : Option Settings :=
@@ -86,6 +94,65 @@ def showPack (p : Pack DRec) : String :=
 def showState (s : State DRec) : String :=
   s!"buf={ids s.buf.reverse} count={s.count} len={s.bufLen} first={s.firstTime} queue={ids s.queue} set={showSettings s.settings} stopped={if s.stopped then 1 else 0}"
 
+/-- the harness's `faultAt` (harness/c16/spec.go), on 64-bit words -/
+def faultAt (spec : String) (n : Nat) : Bool :=
+  match spec.splitOn ":" with
+  | ["first"] => n == 0
+  | ["all"] => true
+  | ["every", k] => match parseNat k with | some k => k > 0 && (n + 1) % k == 0 | none => false
+  | ["random", pct, salt] =>
+    match parseNat pct, parseNat salt with
+    | some pct, some salt =>
+      let m := 18446744073709551616
+      let x := (((n + 1) * 0x9E3779B97F4A7C15) % m) ^^^ ((salt * 0xBF58476D1CE4E5B9) % m)
+      let x := x ^^^ (x >>> 29)
+      let x := (x * 0x94D049BB133111EB) % m
+      let x := x ^^^ (x >>> 32)
+      x % 100 < pct
+    | _, _ => false
+  | _ => false
+
+/-- the client's answers (true = no error) for the first `n` hand-overs -/
+def answersOf (spec : String) (n : Nat) : List Bool :=
+  if spec == "" then [] else (List.range n).map (fun i => !faultAt spec i)
+
+def opWeight : In DRec → Nat
+  | .add _ => 2 | .append _ => 2 | .sendDirect rs => rs.length + 2 | _ => 2
+
+def parseAct (s : String) : Option (Act DRec) :=
+  if s == "k" then some .cancel
+  else if s == "p" then some .poll
+  else if s.startsWith "t" then (parseNat (s.drop 1).toString).map .select
+  else match parseOp s with
+    | some (.add r) => some (.add r)
+    | some (.sendDirect rs) => some (.sendDirect rs)
+    | some (.applyConfig c) => some (.applyConfig c)
+    | _ => none
+
+def actWeight : Act DRec → Nat
+  | .sendDirect rs => rs.length + 2 | _ => 2
+
+def showPC : PC → String
+  | .top => "top" | .polling n => s!"poll{n}" | .exited => "exited"
+
+def answerH (v st ops fault : String) : String :=
+  match parseVariant v, parseSettings st, (if ops == "-" then some [] else (ops.splitOn ";").mapM parseOp) with
+  | some v, some st, some ops =>
+    let n := ops.foldl (fun a o => a + opWeight o) 2
+    let (s, out) := run v dzip dcodec (init st (answersOf fault n)) ops
+    let ps := if out.isEmpty then "-" else ";".intercalate (out.map (fun x => showPack x.2))
+    s!"{ps} | {showState s}"
+  | _, _, _ => "bad-op"
+
+def answerL (v st acts fault : String) : String :=
+  match parseVariant v, parseSettings st, (if acts == "-" then some [] else (acts.splitOn ";").mapM parseAct) with
+  | some v, some st, some acts =>
+    let n := acts.foldl (fun a o => a + actWeight o) 2
+    let (l, out) := lrun v dzip dcodec (linit st (answersOf fault n)) acts
+    let ps := if out.isEmpty then "-" else ";".intercalate (out.map showPack)
+    s!"{ps} | {showState l.core} pc={showPC l.pc} cancelled={if l.cancelled then 1 else 0}"
+  | _, _, _ => "bad-op"
+
 def answer (line : String) : String :=
   match line.splitOn " " with
   | ["R", v, o] =>
@@ -96,13 +163,10 @@ def answer (line : String) : String :=
     match parseConf q w b z with
     | some c => showSettings c.resolve
     | none => "bad-op"
-  | ["H", v, st, ops] =>
-    match parseVariant v, parseSettings st, (if ops == "-" then some [] else (ops.splitOn ";").mapM parseOp) with
-    | some v, some st, some ops =>
-      let (s, out) := run v dzip dcodec (init st) ops
-      let ps := if out.isEmpty then "-" else ";".intercalate (out.map (fun x => showPack x.2))
-      s!"{ps} | {showState s}"
-    | _, _, _ => "bad-op"
+  | ["H", v, st, ops] => answerH v st ops ""
+  | ["H", v, st, ops, fault] => answerH v st ops fault
+  | ["L", v, st, acts] => answerL v st acts ""
+  | ["L", v, st, acts, fault] => answerL v st acts fault
   | _ => "bad-op"
 
 def main : IO Unit := statelessLoop answer
